@@ -25,6 +25,7 @@ func init() {
 		c14LengthForms(c) // C13.4 = C14.1-3
 		c13BufferOwnership(c)
 		c13Prepared(c)
+		c13CloseFlushes(c, "C13.6c")
 		c13TransportUse(c)
 	})
 	register("C14", func(c *core.Ctx, tier string) {
@@ -762,6 +763,35 @@ func c13Prepared(c *core.Ctx) {
 		}
 		c.Check(R, "webtransport.NewPreparedMessage/eager-frame-is-the-server-frame", np.Pos(), okKey, "the frame whose tail becomes pm.data is built with prepareKey{isServer: true} — the single-frame path; a multi-frame rendering would leave interior frame headers inside pm.data (corrupted payload for every later rendering)")
 	}
+}
+
+// C13.6c — closing a streaming writer always emits the final frame.
+func c13CloseFlushes(c *core.Ctx, R string) {
+	c.Rule(R, "messageWriter.Close emits the final frame whatever has been buffered: every return other than the sticky-error edge (w.err != nil) is the result of flushFrame(true, nil) — also when nothing was written (a zero-length message is one empty frame, not nothing: skipping it makes the peer read fewer messages than were written)")
+	u := c.Fn(R, "webtransport.(*messageWriter).Close")
+	if u == nil {
+		return
+	}
+	g := u.Graph()
+	info := u.Info()
+	errEdge := nilGuard(true, func(x *core.Unit, e ast.Expr) bool { return fieldOf(x.Info(), e) == "messageWriter.err" })
+	n := 0
+	for _, r := range returnsIn(u) {
+		if g.GuardedBy(r.Loc, errEdge) {
+			continue
+		}
+		n++
+		ok := false
+		if len(r.Stmt.Results) == 1 {
+			if ce, key := u.AsCall(r.Stmt.Results[0]); ce != nil && key == wtFlush && len(ce.Args) == 2 {
+				if v, isC := core.ConstBool(info, ce.Args[0]); isC && v && core.IsNil(info, ce.Args[1]) {
+					ok = true
+				}
+			}
+		}
+		c.Check(R, "webtransport.(*messageWriter).Close/returns-flushFrame(true,nil)", r.Stmt.Pos(), ok, "the final frame is flushed on this exit")
+	}
+	c.Need(R, "non-error exits of messageWriter.Close", n, 1)
 }
 
 // C13.7 — the transport obtains one writer per packet and closes it on all paths, under w.mu.
